@@ -72,5 +72,13 @@ def extract(ctx):
         ctx.notes.append("I2N/Extracted/GenReady.lean changed: the source of TestNode.is_setup_ready / is_cleanup_ready / "
                          "drop_parent / drop_child / pick_parent / pick_child differs from the one the committed file was "
                          "generated from (the *_matches_source theorems are re-checked)")
+    import pygen_pxloc
+    if pygen_pxloc.extract_lazy(ctx):
+        ctx.notes.append("I2N/Extracted/GenLazy.lean changed: the source of TestNode.is_unrolled / should_parse / is_flat / "
+                         "is_shared_root / is_object_root / get_stateful_objects differs from the one the committed file "
+                         "was generated from (isUnrolled_matches_source, shouldParse_matches_source, "
+                         "one_line_atoms_match_source are re-checked)")
     ctx.extra["regenerated"] = ("lean/I2N/Extracted/GenReady.lean (TestNode.is_setup_ready, is_cleanup_ready, drop_parent, "
-                                "drop_child, pick_parent, pick_child via harness/pygen_pxready.py)")
+                                "drop_child, pick_parent, pick_child via harness/pygen_pxready.py); "
+                                "lean/I2N/Extracted/GenLazy.lean (TestNode.is_unrolled, should_parse, is_flat, "
+                                "is_shared_root, is_object_root, get_stateful_objects via harness/pygen_pxloc.py)")
